@@ -80,9 +80,13 @@ def _scratch_handle(facts, b, op):
     helper parameters and captures"""
     org = _org(facts, b, op)
     cs = _calls(org)
-    if not cs or len(cs) != len(org) or not all(x.matches(r"AsyncTempFile::file$") for x in cs):
+    if not cs or len(cs) != len(org):
         return False
     for x in cs:
+        if x.matches(r"AsyncTempFile::new$"):
+            continue  # the scratch object itself (e.g. `self.file` inside a method of AsyncTempFile)
+        if not x.matches(r"AsyncTempFile::file$"):
+            return False
         o2 = _org(facts, x.body, x.args[0])
         c2 = _calls(o2)
         if not c2 or len(c2) != len(o2) or not all(y.matches(r"AsyncTempFile::new$") for y in c2):
@@ -187,6 +191,11 @@ def failure_returns(body):
                             info["failure"] = r2["ops"][r2["fields"].index("failure")]
                             info["count"] = r2["ops"][r2["fields"].index("num_inserted_references")]
         out.append(info)
+    # a call that writes the return place directly (e.g. `?` on an Option: FromResidual::from_residual)
+    for c in body.calls:
+        if c.dst["l"] == 0 and not c.dst["p"]:
+            out.append({"bb": c.bb, "st": None, "failure": None, "count": None,
+                        "kind": "none" if c.matches(r"from_residual$") else "call:" + c.name.split("::")[-1]})
     return out
 
 
@@ -208,12 +217,20 @@ def examining_switches(body, prov, call):
         place, arms, otherwise = es
         if place["p"]:
             continue
-        var = ty_variants(body.local_ty(place["l"]))
-        if var is None or var is POLL_VARIANTS or "Err" not in var:
+        tyname = body.local_ty(place["l"])
+        var = ty_variants(tyname)
+        if var is POLL_VARIANTS:
+            continue
+        if var is None and not tyname.startswith(("std::ops::ControlFlow<", "core::ops::ControlFlow<")):
             continue
         org = prov.origins(place["l"])
         if any(o[0] == "call" and o[1].bb == call.bb for o in org):
-            out.append((bb, arms.get(1, otherwise), arms.get(0, otherwise)))
+            if var is not None and "None" in var:
+                # an Option-returning step: None is the failure arm
+                out.append((bb, arms.get(0, otherwise), arms.get(1, otherwise)))
+            else:
+                # Result (Err = 1) or the ControlFlow of `?` (Break = 1)
+                out.append((bb, arms.get(1, otherwise), arms.get(0, otherwise)))
     # `.is_ok()` / `.is_err()` tests
     from ..common import trace_bool, bool_switch_targets
     for bb in sorted(body.reachable_blocks()):
@@ -250,7 +267,7 @@ def wrappers(facts):
             owner = facts.body(owner.parent) if owner.parent else None
         if owner is None:
             continue
-        if re.search(INSERT_MAP.replace(r"::\{closure#0\}$", "$"), owner.id) or re.search(r"AsyncTempFile::|AsyncTempFile as", owner.id) or \
+        if re.search(INSERT_MAP.replace(r"::\{closure#0\}$", "$"), owner.id) or re.search(r"AsyncTempFile::new$|AsyncTempFile as std::ops::Drop", owner.id) or \
                 re.search(r"Context::(cache_next_reference_id|read_cached_next_reference_id)$", owner.id):
             continue
         role, why = classify_site(facts, b, c)
